@@ -170,7 +170,12 @@ var (
 	expProgramNames = []string{"Not Defined", "Manual", "Program AE", "Aperture-priority AE", "Shutter speed priority AE", "Creative (Slow speed)", "Action (High speed)", "Portrait", "Landscape", "Bulb"}
 	compressionSome = map[int]string{1: "Uncompressed", 2: "CCITT 1D", 3: "T4/Group 3 Fax", 4: "T6/Group 4 Fax", 5: "LZW", 6: "JPEG (old-style)", 7: "JPEG", 8: "Adobe Deflate", 9: "JBIG B&W", 10: "JBIG Color",
 		99: "JPEG", 262: "Kodak 262", 32766: "Next", 32767: "Sony ARW Compressed", 32769: "Packed RAW", 32770: "Samsung SRW Compressed", 32771: "CCIRLEW", 32773: "PackBits", 32809: "Thunderscan",
-		32946: "Deflate", 34712: "JPEG 2000", 34713: "Nikon NEF Compressed", 34892: "Lossy JPEG", 34925: "LZMA2", 34933: "PNG", 34934: "JPEG XR", 65000: "Kodak DCR Compressed"}
+		32946: "Deflate", 34712: "JPEG 2000", 34713: "Nikon NEF Compressed", 34892: "Lossy JPEG", 34925: "LZMA2", 34933: "PNG", 34934: "JPEG XR", 65000: "Kodak DCR Compressed",
+		// the rest of the ExifTool list the doc comment cites, so that the table is complete and every other value must give the fallback
+		32772: "Samsung SRW Compressed 2", 32867: "Kodak KDC Compressed", 32895: "IT8CTPAD", 32896: "IT8LW", 32897: "IT8MP", 32898: "IT8BL", 32908: "PixarFilm", 32909: "PixarLog", 32947: "DCS",
+		33003: "Aperio JPEG 2000 YCbCr", 33005: "Aperio JPEG 2000 RGB", 34661: "JBIG", 34676: "SGILog", 34677: "SGILog24", 34715: "JBIG2 TIFF FX",
+		34718: "Microsoft Document Imaging (MDI) Binary Level Codec", 34719: "Microsoft Document Imaging (MDI) Progressive Transform Codec", 34720: "Microsoft Document Imaging (MDI) Vector",
+		34887: "ESRI Lerc", 34926: "Zstd", 34927: "WebP", 65535: "Pentax PEF Compressed"}
 	canonDriveNames = map[int]string{0: "Single", 1: "Continuous", 2: "Movie", 3: "Continuous, Speed Priority", 4: "Continuous, Low", 5: "Continuous, High", 6: "Silent Single", 9: "Single, Silent", 10: "Continuous, Silent"}
 	canonFocusNames = map[int]string{0: "One-shot AF", 1: "AI Servo AF", 2: "AI Focus AF", 3: "Manual Focus", 4: "Single", 5: "Continuous", 6: "Manual Focus", 16: "Pan Focus", 256: "AF + MF", 512: "Movie Snap Focus", 519: "Movie Servo AF"}
 	canonMeterNames = map[int]string{0: "Default", 1: "Spot", 2: "Average", 3: "Evaluative", 4: "Partial", 5: "Center-weighted average"}
@@ -280,7 +285,7 @@ func c17jobs(tier string) []c17job {
 			}
 			return m
 		}
-		fbUnknown, fbNoFlash, fbNotDef, fbEmpty := "Unknown", "No Flash", "Not Defined", ""
+		fbUnknown, fbNoFlash, fbNotDef, fbEmpty, fbUnkown := "Unknown", "No Flash", "Not Defined", "", "Unkown" // (sic: the fallback Compression.String documents)
 		mkT, orT, emT, epT := list(makeNames), list(orientationNames), list(expModeNames), list(expProgramNames)
 		// ascending, then descending: the second pass meets whatever state the first left behind
 		var order []int
@@ -302,7 +307,7 @@ func c17jobs(tier string) []c17job {
 			named("MeteringMode.String", i, meta.MeteringMode(u).String, meteringNames, &fbUnknown)
 			named("ExposureMode.String", i, meta.ExposureMode(u).String, emT, &fbUnknown)
 			named("ExposureProgram.String", i, meta.ExposureProgram(u).String, epT, &fbNotDef)
-			named("Compression.String", i, meta.Compression(u).String, compressionSome, nil)
+			named("Compression.String", i, meta.Compression(u).String, compressionSome, &fbUnkown)
 			_, _ = c17str(c, "Flash.bits", i, func() string {
 				f := meta.Flash(u)
 				return fmt.Sprint(f.Fired(), f.ReturnStatus(), f.FlashFunction(), f.Mode(), f.Redeye())
